@@ -162,7 +162,7 @@ Proof.
   - exact hc.
   - exact Cl.
   - change (queue s') with (queue s1). change (tokens s') with (tokens s1). change (woken s') with (woken s1).
-    rewrite hq, hk, hw. destruct (exit_ s).
+    rewrite hq, hk, hw. destruct (exit_ s || throws k).
     + rewrite QOLD. lia.
     + rewrite qw_app, QOLD. cbn [qw]. unfold clw at 1. rewrite L'.
       assert (GB : G cb [] s' (length (clos s)) = b).
